@@ -69,6 +69,9 @@ pub trait Put<T: Payload>: Sized {
     fn new(policy: DropPolicy) -> Self;
     fn insert(&mut self, v: T) -> Self::M<T>;
     fn insert_with(&mut self, id: u64) -> Self::M<T>;
+    /// `insert_with` whose initialiser panics before writing anything; the panic is caught here.
+    /// The pool must be left exactly as it was.
+    fn insert_with_panic(&mut self);
     /// Blind pools only: insert an object of another layout.
     fn insert_sib<X: Payload>(&mut self, v: X) -> Self::M<X>;
     fn len(&self) -> usize;
@@ -293,6 +296,13 @@ impl<T: Payload> Put<T> for RawOpaquePool {
         // SAFETY: `init` fully initialises the object.
         unsafe { Self::insert_with(self, |u: &mut MaybeUninit<T>| T::init(u, id)) }
     }
+    fn insert_with_panic(&mut self) {
+        let r = std::panic::catch_unwind(std::panic::AssertUnwindSafe(|| {
+            // SAFETY: the initialiser never returns, so no uninitialised object is ever exposed.
+            let _h = unsafe { Self::insert_with(self, |_u: &mut MaybeUninit<T>| panic!("c01: initialiser fails")) };
+        }));
+        assert!(r.is_err(), "insert_with returned although its initialiser panicked");
+    }
     fn iterate(&self, script: &[bool], drain_front: bool) -> Option<IterRun> {
         Some(run_iter(self.iter(), script, drain_front))
     }
@@ -321,6 +331,13 @@ impl<T: Payload> Put<T> for RawPinnedPool<T> {
     fn insert_with(&mut self, id: u64) -> RawPooledMut<T> {
         // SAFETY: `init` fully initialises the object.
         unsafe { Self::insert_with(self, |u: &mut MaybeUninit<T>| T::init(u, id)) }
+    }
+    fn insert_with_panic(&mut self) {
+        let r = std::panic::catch_unwind(std::panic::AssertUnwindSafe(|| {
+            // SAFETY: the initialiser never returns, so no uninitialised object is ever exposed.
+            let _h = unsafe { Self::insert_with(self, |_u: &mut MaybeUninit<T>| panic!("c01: initialiser fails")) };
+        }));
+        assert!(r.is_err(), "insert_with returned although its initialiser panicked");
     }
     fn iterate(&self, script: &[bool], drain_front: bool) -> Option<IterRun> {
         Some(run_iter(self.iter(), script, drain_front))
@@ -353,6 +370,13 @@ impl<T: Payload> Put<T> for RawBlindPool {
     fn insert_with(&mut self, id: u64) -> RawBlindPooledMut<T> {
         // SAFETY: `init` fully initialises the object.
         unsafe { Self::insert_with(self, |u: &mut MaybeUninit<T>| T::init(u, id)) }
+    }
+    fn insert_with_panic(&mut self) {
+        let r = std::panic::catch_unwind(std::panic::AssertUnwindSafe(|| {
+            // SAFETY: the initialiser never returns, so no uninitialised object is ever exposed.
+            let _h = unsafe { Self::insert_with(self, |_u: &mut MaybeUninit<T>| panic!("c01: initialiser fails")) };
+        }));
+        assert!(r.is_err(), "insert_with returned although its initialiser panicked");
     }
     fn take_m<X: Payload>(&mut self, h: RawBlindPooledMut<X>) -> X {
         // SAFETY: the model says the object is in the pool.
@@ -390,6 +414,13 @@ impl<T: Payload> Put<T> for LocalOpaquePool {
         // SAFETY: `init` fully initialises the object.
         unsafe { Self::insert_with(self, |u: &mut MaybeUninit<T>| T::init(u, id)) }
     }
+    fn insert_with_panic(&mut self) {
+        let r = std::panic::catch_unwind(std::panic::AssertUnwindSafe(|| {
+            // SAFETY: the initialiser never returns, so no uninitialised object is ever exposed.
+            let _h = unsafe { Self::insert_with(self, |_u: &mut MaybeUninit<T>| panic!("c01: initialiser fails")) };
+        }));
+        assert!(r.is_err(), "insert_with returned although its initialiser panicked");
+    }
     fn iterate(&self, script: &[bool], drain_front: bool) -> Option<IterRun> {
         Some(self.with_iter(|it| run_iter(it, script, drain_front)))
     }
@@ -410,6 +441,13 @@ impl<T: Payload> Put<T> for LocalPinnedPool<T> {
     fn insert_with(&mut self, id: u64) -> LocalPooledMut<T> {
         // SAFETY: `init` fully initialises the object.
         unsafe { Self::insert_with(self, |u: &mut MaybeUninit<T>| T::init(u, id)) }
+    }
+    fn insert_with_panic(&mut self) {
+        let r = std::panic::catch_unwind(std::panic::AssertUnwindSafe(|| {
+            // SAFETY: the initialiser never returns, so no uninitialised object is ever exposed.
+            let _h = unsafe { Self::insert_with(self, |_u: &mut MaybeUninit<T>| panic!("c01: initialiser fails")) };
+        }));
+        assert!(r.is_err(), "insert_with returned although its initialiser panicked");
     }
     fn iterate(&self, script: &[bool], drain_front: bool) -> Option<IterRun> {
         Some(self.with_iter(|it| run_iter(it, script, drain_front)))
@@ -432,6 +470,13 @@ impl<T: Payload> Put<T> for LocalBlindPool {
         // SAFETY: `init` fully initialises the object.
         unsafe { Self::insert_with(self, |u: &mut MaybeUninit<T>| T::init(u, id)) }
     }
+    fn insert_with_panic(&mut self) {
+        let r = std::panic::catch_unwind(std::panic::AssertUnwindSafe(|| {
+            // SAFETY: the initialiser never returns, so no uninitialised object is ever exposed.
+            let _h = unsafe { Self::insert_with(self, |_u: &mut MaybeUninit<T>| panic!("c01: initialiser fails")) };
+        }));
+        assert!(r.is_err(), "insert_with returned although its initialiser panicked");
+    }
 }
 
 // ---------------------------------------------------------------- managed
@@ -451,6 +496,13 @@ impl<T: Payload> Put<T> for OpaquePool {
     fn insert_with(&mut self, id: u64) -> PooledMut<T> {
         // SAFETY: `init` fully initialises the object.
         unsafe { Self::insert_with(self, |u: &mut MaybeUninit<T>| T::init(u, id)) }
+    }
+    fn insert_with_panic(&mut self) {
+        let r = std::panic::catch_unwind(std::panic::AssertUnwindSafe(|| {
+            // SAFETY: the initialiser never returns, so no uninitialised object is ever exposed.
+            let _h = unsafe { Self::insert_with(self, |_u: &mut MaybeUninit<T>| panic!("c01: initialiser fails")) };
+        }));
+        assert!(r.is_err(), "insert_with returned although its initialiser panicked");
     }
     fn iterate(&self, script: &[bool], drain_front: bool) -> Option<IterRun> {
         Some(self.with_iter(|it| run_iter(it, script, drain_front)))
@@ -473,6 +525,13 @@ impl<T: Payload> Put<T> for PinnedPool<T> {
         // SAFETY: `init` fully initialises the object.
         unsafe { Self::insert_with(self, |u: &mut MaybeUninit<T>| T::init(u, id)) }
     }
+    fn insert_with_panic(&mut self) {
+        let r = std::panic::catch_unwind(std::panic::AssertUnwindSafe(|| {
+            // SAFETY: the initialiser never returns, so no uninitialised object is ever exposed.
+            let _h = unsafe { Self::insert_with(self, |_u: &mut MaybeUninit<T>| panic!("c01: initialiser fails")) };
+        }));
+        assert!(r.is_err(), "insert_with returned although its initialiser panicked");
+    }
     fn iterate(&self, script: &[bool], drain_front: bool) -> Option<IterRun> {
         Some(self.with_iter(|it| run_iter(it, script, drain_front)))
     }
@@ -493,5 +552,12 @@ impl<T: Payload> Put<T> for BlindPool {
     fn insert_with(&mut self, id: u64) -> BlindPooledMut<T> {
         // SAFETY: `init` fully initialises the object.
         unsafe { Self::insert_with(self, |u: &mut MaybeUninit<T>| T::init(u, id)) }
+    }
+    fn insert_with_panic(&mut self) {
+        let r = std::panic::catch_unwind(std::panic::AssertUnwindSafe(|| {
+            // SAFETY: the initialiser never returns, so no uninitialised object is ever exposed.
+            let _h = unsafe { Self::insert_with(self, |_u: &mut MaybeUninit<T>| panic!("c01: initialiser fails")) };
+        }));
+        assert!(r.is_err(), "insert_with returned although its initialiser panicked");
     }
 }
